@@ -118,6 +118,10 @@ def run_case(case, ctx, bm):
     tau3 = np.asarray(sp.staticForces(Wrench(Wv0.reshape((6, 1)).copy()), tm(X.copy()), tm(B.copy())), dtype=float).reshape(-1)
     if float(np.linalg.norm(Jinv.T @ tau3 - Wv0)) > 1e-8 * max(1.0, cond / 100.0) * max(1e-9, float(np.linalg.norm(Wv0))):
         viol("jacobian.explicit_elsewhere", "static_forces_explicit_args_when_standing_elsewhere", err=float(np.linalg.norm(Jinv.T @ tau3 - Wv0)))
+    taub3 = np.asarray(sp.staticForcesBody(Wrench(Wv0.reshape((6, 1)).copy()), tm(X.copy()), tm(B.copy())), dtype=float).reshape(-1)
+    Wsb = se3.Ad(se3.inv(X)).T @ Wv0
+    if float(np.linalg.norm(Jinv.T @ taub3 - Wsb)) > 1e-8 * max(1.0, cond / 100.0) * max(1e-9, float(np.linalg.norm(Wsb))):
+        viol("jacobian.explicit_elsewhere", "static_forces_body_explicit_args_when_standing_elsewhere", err=float(np.linalg.norm(Jinv.T @ taub3 - Wsb)))
     if tol.maxabs(sp.getTopT().gTM() - X2) > 1e-12 * max(1.0, tol.maxabs(X2)) or tol.maxabs(sp.getBottomT().gTM() - B2) > 1e-12 * max(1.0, tol.maxabs(B2)):
         viol("jacobian.explicit_elsewhere", "explicit_query_moved_platform")
     sp.IK(top_plate_pos=tm(X.copy()), bottom_plate_pos=tm(B.copy()), protect=True)
